@@ -432,5 +432,56 @@ def run(ctx, rep):
             sl = [bi for bi, t in nflow.calls() if (callee_key(t["f"]) or "").endswith("File::set_len")]
             rep.ob("output-sized", "new_mmapped-sets-len", bool(sl) and all(ncfg.dominates(s_, bi) for s_ in sl for bi, t in nflow.calls() if "map_mut" in (callee_key(t["f"]) or "")),
                    "new_mmapped sets the length before mapping", nm.file, nm.line)
+    _got_words_written(ctx, rep)
     rep.assume("byte equality across thread counts itself needs execution; decided here are the code-shape conditions without which it cannot hold")
     rep.assume("hashbrown with a fixed-state hasher iterates deterministically for identical insertion sequences; rows of kind set-only/fold do not depend on it")
+
+
+def _got_words_written(ctx, rep):
+    """With --update-in-place the output buffer starts out holding the previous file's bytes. A GOT slot that is *taken* (take_next_got_entry) but not stored
+    on some successful path keeps those bytes: the output then depends on what was at the output path before (even if a dynamic relocation overwrites the
+    word at load time, the file - and a fast build ID over it - differs)."""
+    from mir import callee_key
+    F, P = ctx.facts(), ctx.program()
+    rep.rule("got-word-written", "every GOT slot obtained from TableWriter::take_next_got_entry is assigned on every path from the take to a successful return of the function")
+    n = 0
+    for b, bi, t in P.callers_of(lambda k: k.endswith("TableWriter::take_next_got_entry")):
+        flow, cfg = P.flow(b), P.cfg(b)
+        # the `&mut u64` local that receives the slot
+        slots = []
+        for l, ty in enumerate(b.locals):
+            if ty.strip() == "&mut u64" and l > b.d["argc"]:
+                o = flow.origins(("c", (l, [])))
+                if any(x[0] == "call" and x[2] == bi for x in o):
+                    slots.append(l)
+        if not slots:
+            rep.ob("got-word-written", f"{b.key.split('::')[-1]}#{t['l']}:slot", False, "the taken slot is not bound to a `&mut u64` local (cannot follow it)", b.file, t["l"])
+            continue
+        stores = set()
+        for bj, blk in enumerate(b.blocks):
+            if blk.get("cleanup"):
+                continue
+            for st in blk["s"]:
+                if st["k"] == "assign" and st["p"][1] == ["*"] and st["p"][0] in slots:
+                    stores.add(bj)
+        # error exits: blocks that build Err(..) / propagate a residual / diverge
+        errs = set()
+        for bj, blk in enumerate(b.blocks):
+            tt = blk["t"]
+            if tt["k"] == "call" and ((callee_key(tt["f"]) or "").endswith("FromResidual>::from_residual") or (callee_key(tt["f"]) or "").endswith("::from_residual")):
+                errs.add(bj)
+            for st in blk["s"]:
+                if st["k"] == "assign" and st["p"] == [0, []] and st["rv"]["k"] == "agg" and st["rv"].get("variant") == "Err":
+                    errs.add(bj)
+        # where does the slot become available: the block after the `?` on the take
+        start = t.get("to")
+        n += 1
+        reach = cfg.reachable_avoiding_edges(start, set(), avoid_blocks=stores | errs) if start is not None else set()
+        leaks = sorted(x for x in cfg.exits() if x in reach)
+        # a tail call `return self.write_..(..)` also ends the function successfully: exits cover it
+        name = b.key.split("::")[-1]
+        rep.ob("got-word-written", f"{name}#{n}", not leaks,
+               f"{name}: the slot taken at line {t['l']} is stored on every successful path ({len(stores)} store site(s))" if not leaks else
+               f"{name}: a successful return is reachable from the take at line {t['l']} without any store to the slot: under --update-in-place the word keeps the bytes of the "
+               "previous output file", b.file, t["l"])
+    rep.floor("got-word-written", "take_next_got_entry call sites", n, 6)
